@@ -118,6 +118,22 @@ package engine
 //@   ensures [newer_first] result == (len(fname(dirs[i])) > len(fname(dirs[j])) || (len(fname(dirs[i])) == len(fname(dirs[j])) && fname(dirs[i]) > fname(dirs[j])))
 
 
+// Recovery reads a log record as header + body. A record is handed to the replay callback only if its body was
+// read IN FULL (io.ReadFull reports err == nil exactly when it filled the buffer; io.EOF means "no byte at all",
+// io.ErrUnexpectedEOF "some") and decompressed without error: a record cut short by a crash - also one cut right
+// after its header - ends the file and must not be decoded from whatever the reused buffer still holds.
+//@ prop C01 C07
+//@ func (*WAL).replayPhysicRecord
+//@   ghost full bool = false
+//@   ghost decoded bool = false
+//@   call io.ReadFull
+//@     set full = (ret1 == nil)
+//@   call snappy.Decode
+//@     requires [decode_only_complete_body] full
+//@     set decoded = (ret1 == nil)
+//@   call callBack
+//@     requires [only_complete_records] full && decoded
+
 // Recovery: the replayed log files are removed only after the replay returned without error AND the replayed
 // rows were flushed; the names removed are the ones the replay reported (planned in DESIGN §5 C01).
 //@ prop C01
